@@ -941,6 +941,7 @@ func runLifeCase(c cfg, seed uint64, o lifeOpts, keys map[string]struct{}) (eval
 	}
 	close(stormStop)
 	returned := life.waitDone(15 * time.Second)
+	res.ObsMax("max:ms_from_shutdown_request_to_Run_return|"+o.shutdownFrom+"|"+o.moment, time.Since(t0).Milliseconds())
 	if !returned {
 		// bounded: two identical goroutine dumps => deadlock
 		d1 := vlib.NormalizeDump(vlib.GoroutineDump())
